@@ -41,17 +41,48 @@ def target_dir(variant):
 
 
 def ensure_link():
+    """The driver crate depends on bnum through ../.build/repo (a symlink to /repo). For VERIF_REPO=<other checkout> (development aid:
+    evaluating a patched scratch copy without touching /repo) a private copy of the manifest with that path is used instead."""
     os.makedirs(BUILD, exist_ok=True)
     link = os.path.join(BUILD, 'repo')
-    rp = repo_path()
     try:
         cur = os.path.realpath(link) if os.path.islink(link) else None
     except OSError:
         cur = None
-    if cur != rp:
+    if cur != '/repo':
         tmp = link + '.tmp%d' % os.getpid()
-        os.symlink(rp, tmp)
+        os.symlink('/repo', tmp)
         os.replace(tmp, link)
+    rp = repo_path()
+    if rp != '/repo':
+        d = harness_dir()
+        os.makedirs(d, exist_ok=True)
+        src = os.path.join(d, 'src')
+        if not os.path.islink(src):
+            os.symlink(os.path.join(ROOT, 'harness', 'src'), src)
+        with open(os.path.join(ROOT, 'harness', 'Cargo.toml')) as f:
+            t = f.read().replace('path = "../.build/repo"', 'path = "%s"' % rp)
+        with open(os.path.join(d, 'Cargo.toml'), 'w') as f:
+            f.write(t)
+        import shutil
+        shutil.copy(os.path.join(ROOT, 'harness', 'Cargo.lock'), os.path.join(d, 'Cargo.lock'))
+
+
+def harness_dir():
+    rp = repo_path()
+    if rp == '/repo':
+        return os.path.join(ROOT, 'harness')
+    return os.path.join(BUILD, 'harness-' + core.h64(rp).to_bytes(8, 'little').hex()[:8])
+
+
+def out_root():
+    """evidence/ and replays/ live in /verif only for runs against /repo itself"""
+    rp = repo_path()
+    if rp == '/repo':
+        return ROOT
+    d = os.path.join(BUILD, 'scratch-' + core.h64(rp).to_bytes(8, 'little').hex()[:8])
+    os.makedirs(d, exist_ok=True)
+    return d
 
 
 def cargo_env():
@@ -73,7 +104,7 @@ def build(bins, mode, full=False, toolchain=None, features=(), log=None, extra_e
     cmd = ['cargo']
     if toolchain:
         cmd.append('+' + toolchain)
-    cmd += ['build', '--offline', '--manifest-path', os.path.join(HARNESS, 'Cargo.toml')]
+    cmd += ['build', '--offline', '--manifest-path', os.path.join(harness_dir(), 'Cargo.toml')]
     if mode == 'rel':
         cmd.append('--release')
     feats = list(features) + (['full'] if full else [])
@@ -429,10 +460,10 @@ def finish(pid, prop, tier, seed, st, t0, extra_cov):
     for kid, (k, v) in known_hits.items():
         print('KNOWN-FINDING: property=%s %s (e.g. %s on %s: %s)' % (pid, k['what'], v['op'], v['cfg'], v['request']))
     if new_viol:
-        os.makedirs(os.path.join(ROOT, 'replays'), exist_ok=True)
+        os.makedirs(os.path.join(out_root(), 'replays'), exist_ok=True)
         new_viol.sort(key=lambda v: (core.Cfg(v['cfg']).bits, v['op'], v['mode']))
         for i, v in enumerate(new_viol[:25]):
-            path = os.path.join(ROOT, 'replays', '%s-%d-%d.json' % (pid, seed, i))
+            path = os.path.join(out_root(), 'replays', '%s-%d-%d.json' % (pid, seed, i))
             with open(path, 'w') as f:
                 json.dump(v, f, indent=1)
             print('VIOLATION property=%s replay=%s' % (pid, os.path.relpath(path, ROOT)))
@@ -449,7 +480,7 @@ def finish(pid, prop, tier, seed, st, t0, extra_cov):
 
 
 def write_evidence(pid, tier, seed, st, wall, prop, problems, extra_cov, nviol=0):
-    os.makedirs(os.path.join(ROOT, 'evidence'), exist_ok=True)
+    os.makedirs(os.path.join(out_root(), 'evidence'), exist_ok=True)
     cov = {
         'evaluations': st['events'],
         'distinct_nontrivial': len(st['nontrivial']),
@@ -476,7 +507,7 @@ def write_evidence(pid, tier, seed, st, wall, prop, problems, extra_cov, nviol=0
         'wall_s': round(wall, 1),
         'violations': nviol,
     }
-    with open(os.path.join(ROOT, 'evidence', pid + '.json'), 'w') as f:
+    with open(os.path.join(out_root(), 'evidence', pid + '.json'), 'w') as f:
         json.dump(ev, f, indent=1, default=str)
 
 
